@@ -1,19 +1,21 @@
 CFG = {
-    "lean_targets": ["Norad.Props.C06", "Norad.Props.C06Source", "Norad.Props.Small"],
+    "lean_targets": ["Norad.Props.C06", "Norad.Props.C06Source", "Norad.Props.C06Histories", "Norad.Props.Small"],
     "audit": "Norad/Audit/C06.lean",
     "extract": "layer_ops",
     "search_timeout": 150,
     "rule": ("operation histories on Font::layers / Layer through the public API: exhaustive over all sequences of length <= 3 (quick) / 4 (thorough) "
              "from an 11-operation alphabet on clashing names, plus random histories (length <= 25 quick / 120 thorough) of the 13 operations on "
              "name pools built to clash (case variants, '_' variants, reserved words, dots, 260-byte names, invalid names), starting from Font::new() "
-             "and from fonts loaded from generated trees; after every step the full observable state (layer names, directories, glyph names, get_path of "
+             "and from fonts loaded from generated trees (default layer listed first / in the middle / last; the sub-pools hold the names that reach, ignoring case, "
+             "every listed directory and glif file); directed: load trees x every position of the default layer x new_layer / get_or_create_layer / rename_layer with every name reaching a loaded directory; "
+             "entry followed by insert_glyph / rename onto the same name; renames refused for an invalid new name followed by names reaching the old file / directory; after every step the full observable state (layer names, directories, glyph names, get_path of "
              "every pool name) is compared with the model and checked against the invariant rules; at the end Font::save + Font::load and comparison of "
              "the report. non-trivial = history of >= 2 operations; distinct by input tokens"),
     "exhaustive": {"quick": True, "thorough": True},
     "exhaustive_note": "all operation sequences up to length 3 (quick) / 4 (thorough) over the 11-operation alphabet from a new font; the random part is not exhaustive",
     "trusted_base": COMMON_TRUST + [
-        "tools/extract_layer_ops.py (regex translator of the guard chains of new_layer / rename_layer / rename_glyph and of the index-update calls of every "
-        "mutating method of layer.rs; unknown condition text or a missing anchor falls back to the pinned copy, never alarms)",
+        "tools/extract_layer_ops.py (regex translator of the guard chains of new_layer / rename_layer / rename_glyph, of the index-update calls of every "
+        "mutating method of layer.rs, of the index insert_glyph asks before assigning a file name and of the path_set statement of LayerContents::load; unknown condition text or a missing anchor falls back to the pinned copy, never alarms)",
         "file-name assignment enters the container theorems as a parameter with the contracts AssignOK/AssignLOK (proved for the real algorithm in Props/C07Containers); "
         "the driver instantiates it with the C07 model, so every assigned path is predicted exactly",
         "str::to_lowercase as a per-character table sent by the harness (no final-sigma in the pools)",
@@ -30,10 +32,12 @@ MANIFEST = {
              "operation history of any length, the invariant (unique layer names, unique glyph names, exactly one default layer, first, in 'glyphs', the only one "
              "called public.default, file names and directories pairwise distinct ignoring case, path sets covering them), for EVERY lower-casing function and every "
              "file-name function meeting the C07 contract; error_leaves_state; no_undocumented_panic (the unwrap of rename_layer is unreachable); "
-             "sync_step_partial + counterexamples for the entry API (recorded finding). Correspondence: exhaustive short histories and random long ones through "
+             "sync_step_partial + counterexamples for the entry API (recorded finding); insert_repairs_index / insert_after_entry_resyncs / resynced_glyph_is_saved (an entry glyph put back through insert_glyph is in step and saved); "
+             "loaded_pathSet_covers_listed (every listed non-default directory is taken after loading, wherever the default layer is listed). Correspondence: exhaustive short histories and random long ones through "
              "the real API, state compared after every step, save+load at the end. Source-level tie: the guard chains (condition, error, order) of new_layer, rename_layer, "
              "rename_glyph and the table of which redundant index each mutating method updates are regenerated from src/layer.rs on every run; "
-             "source_guard_atoms_match_model (same conditions, as sets: order and error variant are not part of the invariant), source_*_refuses_iff (the operations refuse exactly when a guard of the SOURCE's chain fires, and then change nothing), source_index_updates_match_model re-check the model against them."),
+             "source_guard_atoms_match_model (same conditions, as sets: order and error variant are not part of the invariant), source_*_refuses_iff (the operations refuse exactly when a guard of the SOURCE's chain fires, and then change nothing), source_index_updates_match_model re-check the model against them; source_insertGlyph_eq_model (insert_glyph asks the contents index, as the model does) and "
+             "source_load_pathset_eq_model (the loader builds the path set from `layers`, skipping one, AFTER the default layer is moved to the front) tie two more statements the histories depend on."),
     "design_ref": "5 / C06, Appendix C",
     "note": "trusted: Lean kernel + 3 standard axioms; harness/driver glue; file-name function = the C07 model (contracts proved in Props/C07Containers); glyph contents not modelled",
     "technique": "Lean 4 invariant proof by induction over operation histories; guard chains and index-update table regenerated from layer.rs by a translator and tied by theorems; differential histories against the real containers",
